@@ -1626,12 +1626,42 @@ func checkCRBeforeHyphenJoin(c *Ctx, p *core.Prog) {
 				}
 				break
 			}
-			if bo, ok := cond.(*ssa.BinOp); ok && (bo.Op == token.EQL || bo.Op == token.NEQ) {
-				for _, pair := range [][2]ssa.Value{{bo.X, bo.Y}, {bo.Y, bo.X}} {
-					if k, isK := core.ConstInt(pair[1]); isK && k == '\r' && pair[0] == rv {
-						tested = true
+			// the comparison itself, or a short-circuit expression evaluated into a boolean (a phi whose value comes from
+			// the blocks that end in the comparisons of the conjunction)
+			var mentions func(v ssa.Value, depth int) bool
+			mentions = func(v ssa.Value, depth int) bool {
+				if depth > 4 {
+					return false
+				}
+				for {
+					if u, isU := v.(*ssa.UnOp); isU && u.Op == token.NOT {
+						v = u.X
+						continue
+					}
+					break
+				}
+				if bo, ok := v.(*ssa.BinOp); ok && (bo.Op == token.EQL || bo.Op == token.NEQ) {
+					for _, pair := range [][2]ssa.Value{{bo.X, bo.Y}, {bo.Y, bo.X}} {
+						if k, isK := core.ConstInt(pair[1]); isK && k == '\r' && pair[0] == rv {
+							return true
+						}
 					}
 				}
+				if ph, ok := v.(*ssa.Phi); ok && isBool(ph.Type()) {
+					for k, e := range ph.Edges {
+						if mentions(e, depth+1) {
+							return true
+						}
+						pb := ph.Block().Preds[k]
+						if pif, ok := pb.Instrs[len(pb.Instrs)-1].(*ssa.If); ok && mentions(pif.Cond, depth+1) {
+							return true
+						}
+					}
+				}
+				return false
+			}
+			if mentions(cond, 0) {
+				tested = true
 			}
 		}
 		c.R.Check(tested, "R06.11", "tokenizeStream: white space flushes the open word only after the rune was tested against the carriage return", p.Pos(call.Pos()),
